@@ -308,7 +308,7 @@ let parse_pres = function
   | "eh" -> POwnEh
   | _ -> POwnDebug
 
-type absdata = AbsNone | AbsDwarf of pres * fde list | AbsPe of pe_data
+type absdata = AbsNone | AbsDwarf of pres * fde list | AbsPe of pe_data | AbsMacho of macho_data
 
 let parse_hex_bytes (s : string) : n list =
   if s = "-" then []
@@ -381,6 +381,35 @@ let parse_pe (k : toks) : pe_data =
   in
   { pe_funcs = fl; pe_uinfos = ul; pe_text = text }
 
+(* macho <n> (start opcode)* end stubs_lo stubs_hi helper_lo helper_hi (text lo hex | notext) (eh k (off fde)* | noeh) *)
+let parse_macho (k : toks) : macho_data =
+  let n = ix k in
+  let rec ents i = if i = 0 then [] else begin
+      let st = nx k in let op = nx k in { me_start = st; me_opcode = op } :: ents (i - 1) end in
+  let el = ents n in
+  let en = nx k in
+  let sl = nx k in let sh = nx k in
+  let hl = nx k in let hh = nx k in
+  let text = match next k with
+    | "text" -> let lo = nx k in let bytes = parse_hex_bytes (next k) in Some (lo, bytes)
+    | _ -> None in
+  let eh = match next k with
+    | "eh" ->
+      let cnt = ix k in
+      let rec go i = if i = 0 then [] else begin
+          let off = nx k in
+          let st = nx k in
+          let ln = nx k in
+          let ok = ix k <> 0 in
+          let nrows = ix k in
+          let rec rows j = if j = 0 then [] else begin
+              let o = nx k in let rw = parse_row k in (o, rw) :: rows (j - 1) end in
+          let rs = rows nrows in
+          (off, { f_start = st; f_len = ln; f_rows = rs; f_ok = ok }) :: go (i - 1) end in
+      Some (go cnt)
+    | _ -> None in
+  { m_entries = el; m_end = en; m_stubs = (sl, sh); m_helper = (hl, hh); m_text = text; m_eh = eh }
+
 let parse_abs (k : toks) : absdata =
   match next k with
   | "none" -> AbsNone
@@ -389,6 +418,7 @@ let parse_abs (k : toks) : absdata =
     let fs = parse_fdes k in
     AbsDwarf (p, fs)
   | "pe" -> AbsPe (parse_pe k)
+  | "macho" -> AbsMacho (parse_macho k)
   | s -> failwith ("bad abstract data " ^ s)
 
 (* ---------- per-architecture runner ---------- *)
@@ -506,7 +536,7 @@ let run_x86 (lines : string list) : unit =
             let ba = nx k in
             let bs = nx k in
             skip_to k "A";
-            let d = match parse_abs k with AbsNone -> MNone | AbsDwarf (p, fs) -> MDwarf (p, fs) | AbsPe pe -> MPe pe in
+            let d = match parse_abs k with AbsNone -> MNone | AbsDwarf (p, fs) -> MDwarf (p, fs) | AbsPe pe -> MPe pe | AbsMacho d -> MMacho d in
             (* MustNotAllocateDuringUnwind: expressions evaluated on the fixed-size stack (Policy.v) *)
             let d = if !policy_must then cap_mdata d else d in
             Hashtbl.replace mods id { mstart = st; mend = en; base_avma = ba; base_svma = bs; mdat = d };
@@ -623,6 +653,15 @@ let run_x86 (lines : string list) : unit =
                 | _ -> fmt_res r ^ " ; regs " ^ fmt_regs_x86 rg'))
           | "regenc" -> regenc k
           | "regdec" -> regdec k
+          | "analyze" ->
+            let kind = next k in
+            let bytes = parse_hex_bytes (next k) in
+            let off = nat_of_int (ix k) in
+            let r = (match kind with
+                | "pro" -> prologue_x86 bytes off
+                | "epi" -> epilogue_x86 bytes off
+                | _ -> analysis_x86 bytes off) in
+            (match r with Some ru -> "some " ^ fmt_rule_x86 ru | None -> "none")
           | "msproc" ->
             (* the SPECIFICATION side of C03 (Pe.ms_unwind), compared with the independent oracle *)
             let md = Hashtbl.find_opt mods (next k) in
@@ -660,7 +699,7 @@ let run_a64 (lines : string list) : unit =
             let ba = nx k in
             let bs = nx k in
             skip_to k "A";
-            let d = match parse_abs k with AbsNone -> AMNone | AbsDwarf (p, fs) -> AMDwarf (p, fs) | AbsPe _ -> AMPe in
+            let d = match parse_abs k with AbsNone -> AMNone | AbsDwarf (p, fs) -> AMDwarf (p, fs) | AbsPe _ -> AMPe | AbsMacho d -> AMMacho d in
             let d = if !policy_must then cap_amdata d else d in
             Hashtbl.replace mods id { mstart = st; mend = en; base_avma = ba; base_svma = bs; mdat = d };
             "ok"
@@ -783,6 +822,15 @@ let run_a64 (lines : string list) : unit =
              | "2440" -> "mask " ^ hex mask_24_40
              | _ -> "mask " ^ hex mask_no_strip)
           | "aregs" -> "regs " ^ fmt_regs_a64 (parse_regs_a64 k)
+          | "analyze" ->
+            let kind = next k in
+            let bytes = parse_hex_bytes (next k) in
+            let off = nat_of_int (ix k) in
+            let r = (match kind with
+                | "pro" -> prologue_a64 bytes off
+                | "epi" -> epilogue_a64 bytes off
+                | _ -> analysis_a64 bytes off) in
+            (match r with Some ru -> "some " ^ fmt_rule_a64 ru | None -> "none")
           | _ -> "unknown-op " ^ op
         in
         Printf.printf "%d %s\n" lineno res
